@@ -463,6 +463,16 @@ fn resize_stream<F: Read + Write + Seek>(
 ) -> io::Result<()> {
     let (old_start_sector, old_stream_len) =
         stream_location(minialloc, stream_id)?;
+    // A chain cannot have more sectors than there are regular sector IDs.
+    let max_stream_len = consts::MAX_REGULAR_SECTOR as u64
+        * minialloc.version().sector_len() as u64;
+    if new_stream_len > max_stream_len {
+        invalid_input!(
+            "Cannot resize stream to {} bytes (the maximum is {} bytes)",
+            new_stream_len,
+            max_stream_len
+        );
+    }
     let new_start_sector = if old_start_sector == consts::END_OF_CHAIN {
         // Case 1: The stream has no existing chain.  We will allocate a new
         // chain that is all zeroes.
